@@ -45,18 +45,7 @@ def plan(tier, seed):
     return [sh for sh in shards if not sh["load"]] + [sh for sh in shards if sh["load"]]
 
 
-def machine_busy():
-    """more runnable work than cores (1-minute load average above the core count, or - right now - more runnable
-    tasks than 1.25 x cores): wall-clock budgets then fire for reasons that have nothing to do with the code"""
-    import os
-    n = os.cpu_count() or 1
-    try:
-        with open("/proc/loadavg") as f:
-            parts = f.read().split()
-        l1, runnable = float(parts[0]), int(parts[3].split("/")[0])
-    except Exception:
-        l1, runnable = os.getloadavg()[0], 0
-    return l1 > 1.0 * n or runnable > 1.25 * n
+machine_busy = rowlib.machine_busy
 
 
 def view(r):
